@@ -24,6 +24,9 @@ CONFIGS = {
     "FCV8.u8.TC4": (7, "fcv", 8, 255, "TC", "none"),
     "FCV3.s32.NTR": (7, "fcv", 3, 2**31 - 1, "NTR", "none"),
     "SV4.u8.NTR.led": (7, "sv", 4, 255, "NTR", "led"),
+    "vec.u16.POD.amc": (0, "vec", 0, 65535, "TC", "amc"),
+    "FCV6.u8.POD": (6, "fcv", 6, 255, "TC", "none"),
+    "SV3.s32.POD.led": (6, "sv", 3, 2**31 - 1, "TC", "led"),
 }
 
 
